@@ -143,7 +143,7 @@ func init() {
 			checkC01(ctx, &sc)
 			return
 		}
-		n := ctx.N(3000, 200000)
+		n := ctx.N(24000, 400000)
 		for i := 0; i < n; i++ {
 			sc := genC01(ctx.Rng, false)
 			if i < 2 {
@@ -152,7 +152,7 @@ func init() {
 			checkC01(ctx, sc)
 		}
 		// a few histories on real cmd fans (each cycle costs several process spawns)
-		nc := ctx.N(16, 400)
+		nc := ctx.N(48, 800)
 		for i := 0; i < nc; i++ {
 			checkC01(ctx, genC01(ctx.Rng, true))
 		}
